@@ -144,10 +144,20 @@ def check_batched(ctx, fi: FuncInfo, cls: str, rule: str = "NI-1") -> int:
                f"in_axes = {show(in_axes) if in_axes is not None else 'default'} for {len(vargs)} arguments")
             continue
         bad = []
+
+        def leaves(ax):
+            """axis specification per leaf: an int / None, or a tuple giving one per leaf of a pytree argument"""
+            if ax.op in ("tuple", "list"):
+                out = []
+                for x_ in ax.args:
+                    out += leaves(x_)
+                return out
+            return [ax]
         for k, (a, ax, dv) in enumerate(zip(vargs, axes, derived)):
-            if dv and not is_const(ax, 0):
+            lv = leaves(ax)
+            if dv and not (lv and all(is_const(x_, 0) for x_ in lv)):
                 bad.append(f"argument {k} carries the batch but in_axes[{k}] = {show(ax)}")
-            if not dv and not is_const(ax, None):
+            if not dv and not (lv and all(is_const(x_, None) for x_ in lv)):
                 bad.append(f"argument {k} ({show(a, maxdepth=1)}) is shared data but in_axes[{k}] = {show(ax)}")
         ob(f"vmap #{n_v} maps exactly the per-walker arguments over axis 0", not bad,
            "; ".join(bad) or f"in_axes {show(in_axes)}")
